@@ -219,6 +219,7 @@ def trace_origin(name: str, source: str, *, __all__: bool = False) -> _TraceResu
                 ast.ClassDef,
                 ast.Assign,
                 ast.AnnAssign,
+                ast.AugAssign,
                 ast.NamedExpr,
     ),))
 
@@ -229,8 +230,18 @@ def trace_origin(name: str, source: str, *, __all__: bool = False) -> _TraceResu
     # and end up putting `from pathlib import os` in generated code.
     if __all__:
         all_template = ast.Assign(
-            targets=[ast.Name(id="__all__")], value=ast.List(elts={ast.Constant(value=str)})
-        )
+            targets=[ast.Name(id="__all__")],
+            value=(
+                ast.List(elts={ast.Constant(value=str)}),
+                ast.Tuple(elts={ast.Constant(value=str)}),
+        ),)
+        all_augassign_template = ast.AugAssign(
+            target=ast.Name(id="__all__"),
+            op=ast.Add,
+            value=(
+                ast.List(elts={ast.Constant(value=str)}),
+                ast.Tuple(elts={ast.Constant(value=str)}),
+        ),)
         all_extend_template = ast.Call(
             func=ast.Attribute(value=ast.Name(id="__all__"), attr="extend"),
             args=[(
@@ -238,7 +249,8 @@ def trace_origin(name: str, source: str, *, __all__: bool = False) -> _TraceResu
                 ast.List(elts={ast.Constant(value=str)}),
         )],)
         all_append_template = ast.Call(
-            func=ast.Attribute(value=ast.Name(id="__all__"), attr="append"), args=[str]
+            func=ast.Attribute(value=ast.Name(id="__all__"), attr="append"),
+            args=[ast.Constant(value=str)],
         )
         all_filter: Set[str] = set()
         all_nodes = tuple(core.filter_nodes(root.body, all_template))
@@ -251,7 +263,10 @@ def trace_origin(name: str, source: str, *, __all__: bool = False) -> _TraceResu
                 all_filter.update(constant.value for constant in node.args[0].elts)
 
             for node in core.walk(root, all_append_template):
-                all_filter.add(node.args[0])
+                all_filter.add(node.args[0].value)
+
+            for node in core.walk(root, all_augassign_template):
+                all_filter.update(constant.value for constant in node.value.elts)
 
             if name not in all_filter:
                 return None
@@ -315,7 +330,8 @@ def trace_origin(name: str, source: str, *, __all__: bool = False) -> _TraceResu
             if node.name == name:
                 return _TraceResult(core.get_code(node, source), node.lineno, node)
 
-        if isinstance(node, (ast.Assign, ast.AnnAssign)) and any(
+        # "x += 1" after "from other import x" makes x this module's own
+        if isinstance(node, (ast.Assign, ast.AnnAssign, ast.AugAssign)) and any(
             target.id == name for target in parsing.assignment_targets(node)
         ):
             return _TraceResult(core.get_code(node, source), node.lineno, node)
